@@ -59,8 +59,6 @@ def handle_solve(case):
     """run_solve_linear on the group in fwd and rev: M x = b, M^T y = c (M = physical d(residuals)/d(outputs) of
     the group, taken from an assembled twin), and <c, x> == <y, b>."""
     name = case['solver']
-    exact = name == 'runonce'
-    tol = 0.0 if exact else 1e-9
     asm = name.endswith('_asm')
     probs = {m: c11.build(case, 'csc' if asm else None, m, solver=mk_solver(name)) for m in ('fwd', 'rev')}
     twin = c11.build(case, 'csc', 'fwd')
@@ -68,6 +66,15 @@ def handle_solve(case):
         set_vals(case, comps)
         p.model.run_linearize()
     M = np.array(twin[1]._get_jacobian()._dr_do_mtx.todense())
+    # LinearRunOnce only scales, copies and adds: exact in binary64 iff every scale factor is a power of two
+    # (the default res_ref is ref, which need not be one); otherwise the scaled arithmetic rounds
+    g0 = probs['fwd'][1]
+    facs = np.concatenate([np.abs(np.asarray(a, dtype=float)).ravel()
+                           for v in (g0._doutputs, g0._dresiduals, g0._dinputs, g0._outputs, g0._residuals, g0._inputs)
+                           if v._scaling is not None for a in v._scaling if a is not None] or [np.ones(1)])
+    nz = facs[facs != 0]
+    pow2 = bool(np.all(np.frexp(nz)[0] == 0.5))
+    tol = (0.0 if pow2 else 1e-12) if name == 'runonce' else 1e-9
     n = M.shape[0]
     rng = np.random.RandomState(n * 31 + len(case['v_in']))
     b, c = rng.randint(-4, 5, n).astype(float), rng.randint(-4, 5, n).astype(float)
